@@ -173,6 +173,79 @@ func TestExh_C07(t *testing.T) {
 			run(c)
 		}
 	}
+	// plugins that answer and then leave: the handler's error (whatever its form) or the normal
+	// answer has been written out completely, then the plugin stops its stub, its end of the
+	// connection is closed, or (launched) its process exits, 0..100 ms later. The answer stands.
+	thenForms := []Fault{
+		{Kind: "error", ErrText: "c07 veto by plugin 20", ErrForm: "plain"},
+		{Kind: "error", ErrText: "c07 veto by plugin 20: ttrpc: closed", ErrForm: "status", ErrCode: 8},
+	}
+	delays := []int{0, 1, 5, 20, 45, 100}
+	leaveDelays := []int{0, 5, 45}
+	if ev.Thorough() {
+		thenForms = append(thenForms,
+			Fault{Kind: "error", ErrText: "c07 veto by plugin 20", ErrForm: "status", ErrCode: 4},
+			Fault{Kind: "error", ErrText: "c07 veto by plugin 20: EOF", ErrForm: "wrap", ErrSentinel: "ttrpc.ErrClosed"},
+			Fault{Kind: "error", ErrForm: "bare", ErrSentinel: "io.ErrUnexpectedEOF"})
+		leaveDelays = delays
+	}
+	for _, q := range reqs {
+		for _, how := range []string{"stop", "peer"} {
+			for _, d := range delays {
+				for _, ft := range thenForms {
+					c := mk(q.req, q.event, "", 0, false)
+					ft.Then, ft.ThenMs = how, d
+					c.Plugins[1].Fault = ft
+					run(c)
+				}
+			}
+			for _, d := range leaveDelays {
+				c := mk(q.req, q.event, "", 0, false)
+				c.Plugins[1].Fault = Fault{Kind: "leave", Then: how, ThenMs: d}
+				c.Plugins[1].Big = d == 5
+				run(c)
+			}
+		}
+		for _, d := range []int{0, 20} {
+			run(C07Case{Req: q.req, Event: q.event, Follow: q.req, FollowEvent: q.event, Plugins: []PluginSpec{
+				L(10, Fault{Kind: "error", ErrText: "c07 veto by plugin 10", ErrForm: "status", ErrCode: 8, Then: "exit", ThenMs: d}), L(20, none), L(30, none)}})
+			run(C07Case{Req: q.req, Event: q.event, Follow: q.req, FollowEvent: q.event, Plugins: []PluginSpec{
+				L(10, none), L(20, Fault{Kind: "leave", Then: "exit", ThenMs: d}), L(30, none)}})
+		}
+	}
+	// a protocol break answered to each of the five relays (every relay has its own copy of the
+	// "close the plugin, go on" code): wrong message type and undecodable response
+	for _, q := range []rq{{"create", 0}, {"update", 0}, {"stop", 0}, {"updatepod", 0}, {"event", 9}} {
+		for _, ft := range []Fault{{Kind: "wrongtype", Type: 3}, {Kind: "undecodable", Level: "payload", Bytes: []byte{0x08}}} {
+			c := mk(q.req, q.event, "", 0, false)
+			c.Plugins[1].Fault = ft
+			run(c)
+		}
+	}
+	// socket pressure from the plugin's own calls: it issues unsolicited updates, does not read
+	// the answers (one large one, or several small ones) and then gets a small or a large request
+	type press struct{ calls, kb int }
+	presses := []press{{1, 300}, {6, 10}}
+	pSizes := []string{""}
+	pStalls := []int{-1, 40}
+	if ev.Thorough() {
+		presses = []press{{1, 300}, {2, 300}, {8, 10}, {8, 0}, {1, 0}}
+		pSizes = []string{"", "256k", "1m"}
+		pStalls = []int{-1, 40, 250}
+	}
+	for _, q := range reqs {
+		for _, sz := range pSizes {
+			for _, pr := range presses {
+				for _, st := range pStalls {
+					c := mk(q.req, q.event, "r2p", 12, false)
+					c.ReqSize = sz
+					c.Plugins[1].Fault.StallMs = st
+					c.Plugins[1].Fault.PressCalls, c.Plugins[1].Fault.PressKB = pr.calls, pr.kb
+					run(c)
+				}
+			}
+		}
+	}
 	r.SetExtra("sweep_error_forms", len(forms))
 	r.SetExtra("sweep_cases", n)
 	r.SetExtra("sweep_offsets_small", small)
